@@ -75,6 +75,10 @@ def std_variants(tier: str, noop: bool) -> List[Dict[str, Any]]:
     iv = _v("local", "local", ["one", "split"], "from", 0.25)
     iv["inline"] = True
     v.append(iv)
+    # store paths given by module-level variables (str / pathlib.Path) instead of literals
+    pv = _v("local", "local", ["split"], "from", 0.25)
+    pv["path_vars"] = True
+    v.append(pv)
     # tracked variables whose names shadow builtins (max, format, input, ...)
     bv = _v("local", "local+lru", ["one", "split"], "from", 0.2)
     bv["var_names"] = "builtin"
@@ -97,6 +101,9 @@ def small_variants(tier: str) -> List[Dict[str, Any]]:
          _v("local", "local+lru", ["split"], "from_as", 0.5),
          _v("memory", "memory", ["one"], "from", 0.5),
          _v("local", "local", ["split"], "local", 0.25)]
+    pv = _v("local", "local", ["one"], "from", 0.25)
+    pv["path_vars"] = True
+    v.append(pv)
     if tier == "thorough":
         for x in v:
             x["frac"] = 1.0
@@ -352,6 +359,8 @@ def run_family(prop: str, tier: str) -> int:
                 s2.real["inline_call_args"] = True
             if v.get("accept_form"):
                 s2.real["accept_form"] = v["accept_form"]
+            if v.get("path_vars"):
+                s2.real["path_vars"] = True
             byname[s.name] = s2
         items = [(byname[h["shape"]], h["hist"]) for h in hs]
         if vi == 0:
@@ -377,6 +386,8 @@ def run_family(prop: str, tier: str) -> int:
             realisation += ",notebook-cells"
         if v.get("script"):
             realisation += ",__main__-script"
+        if v.get("path_vars"):
+            realisation += ",paths-given-by-module-variables"
         if v.get("inline"):
             realisation += ",helper-calls-inside-argument-expressions"
         if v.get("var_names"):
